@@ -1,6 +1,7 @@
 package main
 
 import (
+	"regexp"
 	"encoding/json"
 	"fmt"
 	"os"
@@ -13,6 +14,7 @@ type KnownFinding struct {
 	ID           string `json:"id"`
 	Property     string `json:"property"`
 	Obligation   string `json:"obligation"`
+	ObligationRe string `json:"obligation_re,omitempty"` // alternative to Obligation: anchored regular expression (call ordinals shift with harmless edits)
 	Status       string `json:"status"` // known | fixed
 	What         string `json:"what"`
 	WitnessClass string `json:"witness_class,omitempty"` // SMT-LIB boolean over the obligation's model constants
@@ -42,11 +44,23 @@ func loadKnown(path string) *KnownFile {
 func (kf *KnownFile) lookup(prop, obl string) *KnownFinding {
 	for i := range kf.Findings {
 		f := &kf.Findings[i]
-		if f.Status == "known" && f.Property == prop && f.Obligation == obl {
+		if f.Status == "known" && f.Property == prop && f.matches(obl) {
 			return f
 		}
 	}
 	return nil
+}
+
+func (f *KnownFinding) matches(obl string) bool {
+	if f.Obligation != "" && f.Obligation == obl {
+		return true
+	}
+	if f.ObligationRe != "" {
+		if re, err := regexp.Compile("^(?:" + f.ObligationRe + ")$"); err == nil && re.MatchString(obl) {
+			return true
+		}
+	}
+	return false
 }
 
 // inWitnessClass: does the model of the failed obligation lie in the recorded class?
